@@ -283,7 +283,16 @@ def adversarial_bocs(rng, n):
     body = bytes([7, 0] + [1] * 7) * 40 + bytes([0, 0])
     out.append(('7refs', boc_header(1, 2, 41, 1, 0, len(body)) + b'\x00' + body))
     rng.shuffle(out)
-    return out[:n]
+    out = out[:n]
+    # always present: zero-width offset field (off_bytes = 0) under the index flag / the legacy magics with a huge cell count --
+    # the index loop must be cut by the input length, never run cells_num times
+    for sb in (2, 3, 4, 7):
+        out.append(('ob0-idx-big', boc_header(sb, 0, big(sb), 1, 0, 0, 128) + bytes(rng.randrange(0, 64))))
+        out.append(('ob0-idx-big', boc_header(sb, 0, big(sb) >> 1, 1, 0, 0, 128 + 32) + be(0, sb) + bytes(rng.randrange(0, 64))))
+    for magic in (b'\x68\xff\x65\xf3', b'\xac\xc3\xa7\x28'):
+        for sb in (3, 4, 8):
+            out.append(('legacy-ob0-big', magic + bytes([sb, 0]) + be(big(sb), sb) + be(1, sb) + be(0, sb) + bytes(rng.randrange(0, 64))))
+    return out
 
 
 def mutate_bytes(rng, bs):
